@@ -39,6 +39,7 @@ class Check(PropertyCheck):
                 cases.append({
                     "v": v, "key_size": rng.choice([4, 6, 12]) if nkeys < 7 else 5, "nv3": rng.random() < 0.6,
                     "prior": rng.random() < 0.6,      # the adapter held another network before (multi-step history)
+                    "prior_left": rng.random() < 0.4,  # ... and has left it since (no formed network, its link keys still stored)
                     "same_ieee": rng.random() < 0.5, "node_unknown": rng.random() < 0.15,
                     "pan": rng.randrange(0xFFFF), "epan": rnd_bytes(rng, 8).hex(), "channel": rng.randrange(11, 27),
                     "mask": rng.choice([0x07FFF800, 1 << 15, (1 << 11) | (1 << 26)]), "update_id": rng.randrange(256),
@@ -96,6 +97,9 @@ class Check(PropertyCheck):
                           children=[[bytes([0xDD, k, 2, 2, 2, 2, 2, 2]).hex(), 0x4000 + k] for k in range(2)])
                 pni, pnode = self._netinfo(pc)
                 await app.write_network_info(network_info=pni, node_info=pnode)
+                if c.get("prior_left"):
+                    sim.c_leaveNetwork({})          # e.g. `bellows leave`: the network is gone, the key table is not wiped
+                    await asyncio.sleep(0)
                 del sim.log[:]
             ni, node = self._netinfo(c)
             import zigpy.types as zt0
